@@ -28,7 +28,7 @@ ENTRY = {
     ],
 }
 MANIFEST = {
-    "text": "Lean theorems over the executable model of the walker-threads -> channel -> single-printer pipeline, for every thread count, every partition of the files among the threads, every per-file item order, every interleaving in the channel and every linearisation of the error counter: the printed output is the well-formed JSON array / JSON-lines rendering (specification Spec/JsonOut.render, written from the --json documentation) of a permutation of the union over the files of their records, each file contributing exactly once; error count, exit status, scanned and skipped counters are those of the union (schedule_irrelevant, thread_count_irrelevant, union_of_single_file_runs); making one file unreadable/empty/oversized removes exactly its records and errors and keeps the output well-formed (skip_isolated); a record never straddles two buffers and each buffer is a contiguous block of the output whatever the arrival order (items_self_contained, item_buffer_contiguous); read_file skips exactly unreadable / non-UTF-8 / empty / (>3,000,000 bytes AND >200,000 lines) files (readFile_skip_iff); stream output determines its records uniquely (stream_records_unique). 'Any interleaving of lists is a permutation of their concatenation' is proved from the inductive definition with core List.Perm only. Correspondence: generated trees of 50-400 files with planted faults (chmod 000 via uid drop when root, empty, invalid UTF-8, one oversized, dangling symlinks) scanned by the real CLI (run/scan, three JSON styles, -j 1..16, repeated); per-file results from single-file runs of the same CLI; the model predicts stdout byte for byte, counters and exit status for each observed arrival order.",
+    "text": "Lean theorems over the executable model of the walker-threads -> channel -> single-printer pipeline, for every thread count, every partition of the files among the threads, every per-file item order, every interleaving in the channel and every linearisation of the error counter: the printed output is the well-formed JSON array / JSON-lines rendering (specification Spec/JsonOut.render, written from the --json documentation) of a permutation of the union over the files of their records, each file contributing exactly once; error count, exit status, scanned and skipped counters are those of the union (schedule_irrelevant, thread_count_irrelevant, union_of_single_file_runs); making one file unreadable/empty/oversized removes exactly its records and errors and keeps the output well-formed (skip_isolated); a record never straddles two buffers and each buffer is a contiguous block of the output whatever the arrival order (items_self_contained, item_buffer_contiguous); read_file skips exactly unreadable / non-UTF-8 / empty / (>3,000,000 bytes AND >200,000 lines) files (readFile_skip_iff); stream output determines its records uniquely (stream_records_unique). 'Any interleaving of lists is a permutation of their concatenation' is proved from the inductive definition with core List.Perm only. Correspondence: generated trees of 50-400 files with planted faults (chmod 000 via uid drop when root, empty, invalid UTF-8, one oversized, dangling symlinks) scanned by the real CLI (run/scan, three JSON styles, -j 1..16, repeated); per-file results from single-file runs of the same CLI; the model predicts stdout byte for byte, counters and exit status for each observed arrival order. The trees contain HTML files with an embedded script (handed to the JavaScript commands as injected documents) and rules whose `files:` / `ignores:` globs tell sibling files apart by name. A timeout counts as a hang only if the process is idle (no CPU time, every thread asleep over 3 s) or exceeds four times the limit.",
     "note": "Trusted: Lean kernel + 3 standard axioms; harness/driver/check.py glue; walker, mpsc, atomics and serde_json contracts are hypotheses of the theorems (Run.Valid, RecordsNonEmpty) sampled by the oracle; real thread schedules are sampled, not enumerated.",
     "technique": "Lean 4 proof over hand-written executable model (inductive interleavings, Perm) + end-to-end differential correspondence through the real CLI with fault injection + property oracle (union of single-file runs, exit status equal across thread counts, stdout parses)",
 }
